@@ -678,6 +678,7 @@ def run(chk):   # noqa
     _threadedmark_rule(chk, prog)
     _ringmark_rule(chk, prog)
     _stackarg_rule(chk, prog, S)
+    _cbstate_rule(chk, prog)
 
 
 def _threadedmark_rule(chk, prog):
@@ -1018,3 +1019,55 @@ def _stackarg_rule(chk, prog, S):
                               "`%s` points into the running fiber's stack (callers pass fiber->data + offset) and is used at %s after `%s`, "
                               "which can run Janet code on the same fiber and reallocate that stack" % (pn, bad.loc, relocs[0].text()[:40]))
     chk.floor(rule, 3, n)
+
+
+def _cbstate_rule(chk, prog):
+    """The state of a pending stream operation is a malloc'ed struct that only the fiber's ev_state points at; the
+    collector reaches what it refers to through the callback's MARK event and through nothing else.  ev/read without a
+    buffer argument creates its buffer and stores it in that state only: if the MARK arm does not mark it, a
+    collection during the wait frees the buffer the read is about to fill."""
+    rule = "C01-CBSTATE"
+    chk.rule(rule, "every collectable object an event callback's state struct refers to is marked by that callback (its MARK arm)")
+    from rules.c03 import abstract_types
+    abstract_payloads = set()
+    for tu, name, vals in abstract_types(prog):
+        abstract_payloads.add(name)
+    n = 0
+    for fn in prog.all_funcs():
+        ps = fn.params
+        if not (len(ps) == 2 and "JanetAsyncEvent" in ps[1]["t"] and "JanetFiber" in ps[0]["t"]):
+            continue
+        T = svar = None
+        for x in fn.nodes:
+            if x.k == "vardecl" and x.kids and any(y.k == "mem" and y.field == "ev_state" for y in x.kids[0].walk()):
+                t = (x.t or "")
+                if t.count("*") == 1:
+                    T, svar = t.replace("*", "").replace("struct ", "").strip(), x.name
+        rec = prog.records.get(T) if T else None
+        if rec is None:
+            continue
+        # the state may itself be a collected object (an abstract) that the callback marks as a whole
+        if any(c.k == "call" and (c.callee or "").startswith("janet_mark") and
+               any(y.k == "ref" and y.name == svar for y in c.walk()) and not any(y.k == "mem" and y.rec == T for y in c.walk())
+               for c in fn.nodes):
+            continue
+        marked = set()
+        for c in fn.nodes:
+            if c.k == "call" and (c.callee or "").startswith("janet_mark"):
+                for y in c.walk():
+                    if y.k == "mem" and y.rec == T:
+                        marked.add(y.field)
+        for f in rec["fields"]:
+            if not ref_bearing(f):
+                continue
+            n += 1
+            chk.instance(rule)
+            chk.analysed(fn)
+            if f["n"] in marked:
+                chk.ok(rule, "%s: state->%s is marked" % (fn.name, f["n"]))
+            else:
+                chk.violation(rule, fn.tu.name, fn.name, "%s.%s" % (T, f["n"]), fn.loc,
+                              "%s never marks `%s` of its state (%s): the state struct is plain malloc memory, so during the wait "
+                              "nothing else keeps that object alive - a collection frees it and the operation goes on using it" % (
+                                  fn.name, f["n"], f["t"]))
+    chk.floor(rule, 2, n)
